@@ -211,7 +211,7 @@ Fixpoint tokenize_go (l : list Z) (i cpos : Z) (prev : Z) (ws : list (list Z)) (
       else if c =? 10 then
         (app_last (if (0 <? i) && (prev =? c) then ws ++ [[]] else ws) c, true)
       else (app_last (if punc then ws ++ [[]] else ws) c, false) in
-    let '(index, pos) := if i =? cpos then (zlen ws - 1, blen (last_or [] ws) - 1) else (index, pos) in
+    let '(index, pos) := if i =? cpos then (zlen ws - 1, zlen (last_or [] ws) - 1) else (index, pos) in
     tokenize_go r (i + 1) cpos c ws punc index pos
   end.
 
@@ -221,7 +221,7 @@ Definition tokenize (l : list Z) (cpos : Z) : list (list Z) * Z * Z :=
   | _ =>
     let cpos := l_check_pos l cpos in
     let '(ws, index, pos) := tokenize_go l 0 cpos 0 [[]] false 0 0 in
-    if cpos =? zlen l then (ws, zlen ws - 1, blen (last_or [] ws)) else (ws, index, pos)
+    if cpos =? zlen l then (ws, zlen ws - 1, zlen (last_or [] ws)) else (ws, index, pos)
   end.
 
 Fixpoint tokenize_space_go (l : list Z) (i cpos : Z) (prev : Z) (ws : list (list Z)) (newline : bool) (index pos : Z)
@@ -233,7 +233,7 @@ Fixpoint tokenize_space_go (l : list Z) (i cpos : Z) (prev : Z) (ws : list (list
       if (c =? 32) || (c =? 9) then (app_last ws c, false)
       else if c =? 10 then (app_last (if (0 <? i) && (prev =? c) then ws ++ [[]] else ws) c, true)
       else (app_last (if ((0 <? i) && ((prev =? 32) || (prev =? 9))) || newline then ws ++ [[]] else ws) c, false) in
-    let '(index, pos) := if i =? cpos then (zlen ws - 1, blen (last_or [] ws) - 1) else (index, pos) in
+    let '(index, pos) := if i =? cpos then (zlen ws - 1, zlen (last_or [] ws) - 1) else (index, pos) in
     tokenize_space_go r (i + 1) cpos c ws newline index pos
   end.
 
@@ -243,7 +243,7 @@ Definition tokenize_space (l : list Z) (cpos : Z) : list (list Z) * Z * Z :=
   | _ =>
     let cpos := l_check_pos l cpos in
     let '(ws, index, pos) := tokenize_space_go l 0 cpos 0 [[]] false 0 0 in
-    if cpos =? zlen l then (ws, zlen ws - 1, blen (last_or [] ws)) else (ws, index, pos)
+    if cpos =? zlen l then (ws, zlen ws - 1, zlen (last_or [] ws)) else (ws, index, pos)
   end.
 
 Definition word_at (ws : list (list Z)) (i : Z) : list Z := nth (Z.to_nat i) ws [].
@@ -257,7 +257,7 @@ Definition l_forward (l : list Z) (tk : list (list Z) * Z * Z) : Z :=
   let '(ws, index, pos) := tk in
   match ws with
   | [] => 0
-  | _ => if index + 1 =? zlen ws then zlen l - pos else blen (word_at ws index) - pos
+  | _ => if index + 1 =? zlen ws then zlen l - pos else zlen (word_at ws index) - pos
   end.
 
 Definition l_forward_end (tk : list (list Z) * Z * Z) : Z :=
@@ -266,11 +266,11 @@ Definition l_forward_end (tk : list (list Z) * Z * Z) : Z :=
   | [] => 0
   | _ =>
     let word := trim_right_space (word_at ws index) in
-    if (index =? zlen ws - 1) && (blen word - 1 <=? pos) then 0
-    else if blen word - 1 <=? pos then
+    if (index =? zlen ws - 1) && (zlen word - 1 <=? pos) then 0
+    else if zlen word - 1 <=? pos then
       let word2 := trim_right_space (word_at ws (index + 1)) in
-      blen (word_at ws index) - pos + (blen word2 - 1)
-    else blen word - pos - 1
+      zlen (word_at ws index) - pos + (zlen word2 - 1)
+    else zlen word - pos - 1
   end.
 
 Definition l_backward (tk : list (list Z) * Z * Z) : Z :=
@@ -278,7 +278,7 @@ Definition l_backward (tk : list (list Z) * Z * Z) : Z :=
   match ws with
   | [] => 0
   | _ => if (index =? 0) && (pos =? 0) then 0
-         else if pos =? 0 then - blen (word_at ws (index - 1))
+         else if pos =? 0 then - zlen (word_at ws (index - 1))
          else - pos
   end.
 
@@ -765,6 +765,39 @@ Definition with_newline (t : list Z) : list Z :=
   | c :: _ => if c =? 10 then t else t ++ [10]
   end.
 
+(* the common tail of the emacs kills: cut the region, push it on the ring, put the cursor at b *)
+Definition kill_range (e : ed) (b ep : Z) (cur : Z) : res ed :=
+  let e := s_mark_range e b ep in
+  do r <- s_cut e;
+  let '(e, t) := r in
+  Ok (c_set (ring_write e t) cur).
+
+Definition cmd_kill_whole_line (e : ed) : res ed :=
+  do e <- h_save e;
+  if llen e =? 0 then Ok e
+  else Ok (set_line (ring_write e (line e)) (l_cut (line e) 0 (llen e))).
+
+Definition cmd_yank (e : ed) : res ed :=
+  let buf := ring_top e in
+  let '(e, n) := it_get e in
+  Ok (iter_n (times_nat n) (fun e => c_insert_at e buf) e).
+
+(* vi-delete-to / vi-yank-to with an active selection (visual mode, or after the motion of d<motion>) *)
+Definition cmd_vi_delete_sel (e : ed) : res ed :=
+  do e <- h_save e;
+  let e := adjust_selection_pending e in
+  let '(e, cp) := s_cursor e in
+  do r <- s_cut e;
+  let '(e, t) := r in
+  vi_command_mode (c_set (ring_write e t) cp).
+
+Definition cmd_vi_yank_sel (e : ed) : res ed :=
+  do e <- h_save e;
+  let e := adjust_selection_pending e in
+  do r <- s_pop e;
+  let '(e, t, _, _, cp) := r in
+  vi_command_mode (c_set (ring_write e t) cp).
+
 (* one command; `keys` is Keys.Caller() *)
 Definition run_command (name : list Z) (keys : list Z) (mem_kind : bool) (max_entries : Z) (e : ed) : res ed :=
   let is n := eqlZ name (zs n) in
@@ -814,10 +847,7 @@ Definition run_command (name : list Z) (keys : list Z) (mem_kind : bool) (max_en
     else
       let cp := c_pos e in
       do e <- c_end_of_line_append e;
-      let e := s_mark_range e cp (c_pos e) in
-      do r <- s_cut e;
-      let '(e, t) := r in
-      Ok (c_set (ring_write e t) cp)
+      kill_range e cp (c_pos e) cp
   else if is "backward-kill-line"%string then
     let e := it_reset e in
     do e <- h_save e;
@@ -829,20 +859,14 @@ Definition run_command (name : list Z) (keys : list Z) (mem_kind : bool) (max_en
       do r <- s_cut e;
       let '(e, t) := r in
       Ok (ring_write e t)
-  else if is "kill-whole-line"%string then
-    do e <- h_save e;
-    if llen e =? 0 then Ok e
-    else Ok (set_line (ring_write e (line e)) (l_cut (line e) 0 (llen e)))
+  else if is "kill-whole-line"%string then cmd_kill_whole_line e
   else if is "kill-word"%string then
     do e <- h_save e;
     let b := c_pos e in
     let e := c_to_first_non_space e true in
     let e := c_move e (l_forward (line e) (tokenize_space (line e) (c_pos e)) - 1) in
     let ep := c_pos e in
-    let e := s_mark_range e b ep in
-    do r <- s_cut e;
-    let '(e, t) := r in
-    Ok (c_set (ring_write e t) b)
+    kill_range e b ep b
   else if is "backward-kill-word"%string then
     do e <- h_save e;
     let e := h_skip_save e in
@@ -876,10 +900,7 @@ Definition run_command (name : list Z) (keys : list Z) (mem_kind : bool) (max_en
       let m := cmark e in
       let e := c_set (c_set_mark e) m in
       Ok (s_visual_set (s_mark_range e (cmark e) (c_pos e)) false)
-  else if is "yank"%string then
-    let buf := ring_top e in
-    let '(e, n) := it_get e in
-    Ok (iter_n (times_nat n) (fun e => c_insert_at e buf) e)
+  else if is "yank"%string then cmd_yank e
   else if is "undo"%string || is "vi-undo"%string then h_undo e
   else if is "redo"%string then h_redo e
   else if is "digit-argument"%string then
@@ -901,8 +922,9 @@ Definition run_command (name : list Z) (keys : list Z) (mem_kind : bool) (max_en
       (fix go (k : nat) (e : ed) : res ed :=
          match k with
          | O => Ok e
-         | S k' => do c <- idx 311 (line e) (c_pos e + 1);
-                   if c =? 10 then Ok e else go k' (c_inc (c_check_append e))
+         | S k' => if llen e - 1 <=? c_pos e then Ok e
+                   else do c <- idx 311 (line e) (c_pos e + 1);
+                        if c =? 10 then Ok e else go k' (c_inc (c_check_append e))
          end) (times_nat n) e
     else Ok e
   else if is "vi-backward-char"%string then
@@ -945,7 +967,8 @@ Definition run_command (name : list Z) (keys : list Z) (mem_kind : bool) (max_en
       let '(e, n) := it_get e in
       let '(e, cut) := iter_n (times_nat n)
                          (fun ec => let '(e, cut) := ec in
-                                    (set_line e (l_cut_rune (line e) (c_pos e)), cut ++ [c_char e])) (e, []) in
+                                    if llen e <=? c_pos e then (e, cut)
+                                    else (set_line e (l_cut_rune (line e) (c_pos e)), cut ++ [c_char e])) (e, []) in
       Ok (ring_write e cut)
   else if is "vi-delete-to"%string then
     if km_is_pending e then
@@ -956,13 +979,7 @@ Definition run_command (name : list Z) (keys : list Z) (mem_kind : bool) (max_en
       do r <- s_cut e;
       let '(e, t) := r in
       Ok (c_set (ring_write e (with_newline t)) cp)
-    else if s_active (sel e) then
-      do e <- h_save e;
-      let e := adjust_selection_pending e in
-      let '(e, cp) := s_cursor e in
-      do r <- s_cut e;
-      let '(e, t) := r in
-      vi_command_mode (c_set (ring_write e t) cp)
+    else if s_active (sel e) then cmd_vi_delete_sel e
     else
       match keys with
       | [] => Panic 321
@@ -978,12 +995,7 @@ Definition run_command (name : list Z) (keys : list Z) (mem_kind : bool) (max_en
       do r <- s_pop e;
       let '(e, t, _, _, _) := r in
       Ok (ring_write e (with_newline t))
-    else if s_active (sel e) then
-      do e <- h_save e;
-      let e := adjust_selection_pending e in
-      do r <- s_pop e;
-      let '(e, t, _, _, cp) := r in
-      vi_command_mode (c_set (ring_write e t) cp)
+    else if s_active (sel e) then cmd_vi_yank_sel e
     else
       match keys with
       | [] => Panic 322
